@@ -4,13 +4,18 @@
    evaluator model (= the call-by-value semantics, C02): `if true then e else e'` steps to e, the
    immediately applied annotated identity steps to its (value) argument, and an unused value
    definition disappears in two steps, leaving the body untouched (a de Bruijn law: opening the
-   variable that a shift has just made fresh undoes the shift). Acceptance-side invariance and the
-   remaining rewrites (renaming, redundant parentheses, naming a subexpression, reordering independent
-   functions, and sequences of rewrites) are decided on the implementation directly, for every
-   applicable site of generated programs. *)
+   variable that a shift has just made fresh undoes the shift). Renaming: the scoping stage is
+   invariant under every injective renaming of identifiers that fixes `_` - in particular under
+   swapping a bound name with a fresh one - so the resolved (nameless) term, and with it acceptance
+   and the value, do not depend on the names chosen (Proofs/AlphaProofs.v, with C08's theorem that
+   the resolver mirror computes this specification). Acceptance-side invariance of the other rewrites
+   (redundant parentheses, naming a subexpression, reordering independent functions, sequences of
+   rewrites) is decided on the implementation directly, for every applicable site of generated
+   programs. *)
 From Coq Require Import List ZArith Bool.
 Import ListNotations.
 Require Import Gram.Model.Term Gram.Model.DeBruijn Gram.Model.Eval Gram.Proofs.RewriteProofs.
+Require Import Gram.Model.Parser Gram.Model.ParserPost Gram.Spec.ScopeSpec Gram.Proofs.AlphaProofs.
 
 Theorem C19_if_true : forall e e', step (TIf TTrue e e') = Some e.
 Proof. exact if_true_step. Qed.
@@ -33,3 +38,19 @@ Proof. exact unused_definition_steps. Qed.
 Check C19_unused_definition : forall ann v b, hole_free b = true -> is_value v = true ->
   step (TLet [(ann, v)] (ushift b 0 1)) = Some (TLet [] b) /\ step (TLet [] b) = Some b.
 Print Assumptions C19_unused_definition.
+
+Theorem C19_renaming_invariance : forall (rho : name -> name),
+  (forall x y, rho x = rho y -> x = y) -> rho placeholder = placeholder ->
+  forall t, scope_spec (rn rho t) = scope_spec t.
+Proof. exact scope_spec_rename. Qed.
+Check C19_renaming_invariance : forall (rho : name -> name),
+  (forall x y, rho x = rho y -> x = y) -> rho placeholder = placeholder ->
+  forall t, scope_spec (rn rho t) = scope_spec t.
+Print Assumptions C19_renaming_invariance.
+
+Theorem C19_swap_with_fresh_name : forall a b t, is_placeholder a = false -> is_placeholder b = false ->
+  scope_spec (rn (swap_names a b) t) = scope_spec t.
+Proof. exact scope_spec_swap. Qed.
+Check C19_swap_with_fresh_name : forall a b t, is_placeholder a = false -> is_placeholder b = false ->
+  scope_spec (rn (swap_names a b) t) = scope_spec t.
+Print Assumptions C19_swap_with_fresh_name.
